@@ -33,11 +33,12 @@ def main():
     only = sys.argv[1:]
     seeds = sorted(os.listdir(os.path.join(HERE, "seeded")))
     allp = sorted(CLAIMS)
-    for s in seeds:
-        if only and s not in only:
-            continue
+    from concurrent.futures import ThreadPoolExecutor
+    todo = [s for s in seeds if not only or s in only]
+    with ThreadPoolExecutor(5) as ex:
+        results = list(ex.map(lambda s: run(s, allp), todo))
+    for s, res in zip(todo, results):
         meta = json.load(open(os.path.join(HERE, "seeded", s, "meta.json")))
-        res = run(s, allp)
         det = {p: v for p, v in res.items() if isinstance(v, dict) and v.get("exit") == 1}
         broken = {p: v for p, v in res.items() if isinstance(v, dict) and v.get("exit") == 2}
         rec = {"seed": s, "property": meta.get("property"), "detected_by": det, "analysis_broken": sorted(broken),
